@@ -228,7 +228,18 @@ fn node_list_round_trip(a: &Adf) -> Result<Adf, String> {
 
 fn serde_round_trip(a: &Adf) -> Result<Adf, String> {
     let s = serde_json::to_string(a).map_err(|e| format!("export: {e}"))?;
+    // every standard way of reading the exported text back must work and agree
     let mut b: Adf = serde_json::from_str(&s).map_err(|e| format!("import: {e}"))?;
+    let r: Adf = serde_json::from_reader(s.as_bytes()).map_err(|e| format!("import through a reader: {e}"))?;
+    let v: serde_json::Value = serde_json::from_str(&s).map_err(|e| format!("export is not JSON: {e}"))?;
+    let w: Adf = serde_json::from_value(v).map_err(|e| format!("import from a JSON value: {e}"))?;
+    let pretty = serde_json::to_string_pretty(a).map_err(|e| format!("pretty export: {e}"))?;
+    let p: Adf = serde_json::from_str(&pretty).map_err(|e| format!("import of the pretty-printed export: {e}"))?;
+    for (what, o) in [("reader", &r), ("value", &w), ("pretty", &p)] {
+        if o.bdd.nodes != b.bdd.nodes || o.ac != b.ac || sut::names_of(o) != sut::names_of(&b) {
+            return Err(format!("import via {what} differs from import via from_str"));
+        }
+    }
     b.fix_import();
     Ok(b)
 }
